@@ -60,8 +60,14 @@ def _alg_case(draw):
     B = draw(st.integers(1, 3))
     # >= 2 atoms per row: initialize() removes the centre-of-mass motion, which is all a single atom has
     rows = [sorted(draw(st.lists(st.sampled_from(ELEMENTS), min_size=2, max_size=5)), reverse=True) for _ in range(B)]
-    return {"rows": rows, "padw": draw(st.integers(0, 2)), "dt": draw(st.sampled_from([0.05, 0.1, 0.25, 0.5, 1.0, 2.0])),
+    case = {"rows": rows, "padw": draw(st.integers(0, 2)), "dt": draw(st.sampled_from([0.05, 0.1, 0.25, 0.5, 1.0, 2.0])),
             "ratio_exp": draw(st.integers(-40, 10)) / 10.0, "T": draw(st.sampled_from([0.0, 1.0, 10.0, 77.0, 300.0, 1000.0, 2000.0]))}
+    if draw(st.booleans()):
+        # the same driver object has been initialised before: on another molecule of the same tensor shape (elements
+        # permuted between rows / replaced) and with other temperature, time step and damping time
+        case["reused"] = {"T": draw(st.sampled_from([50.0, 500.0])), "dt": draw(st.sampled_from([0.2, 0.7])), "tau": draw(st.sampled_from([3.0, 80.0])),
+                          "shift": draw(st.integers(1, 5))}
+    return case
 
 
 class Algebra(SubCheck):
@@ -86,6 +92,22 @@ class Algebra(SubCheck):
         labels = ["ratio_decade:%d" % math.floor(case["ratio_exp"]), "T:%g" % T, "rows:%d" % len(rows), "padded:%s" % bool((S == 0).any())]
         labels += ["massrow:%d" % (1 if z <= 2 else 2 if z <= 10 else 3) for z in sorted({z for r in rows for z in r})]
         mol, md = _langevin(S, X, T, dt, tau, k=0.0)
+        if case.get("reused"):
+            labels.append("reused_driver")
+            ru = case["reused"]
+            # decoy of the same shape with other elements (same padding layout), initialised on the SAME driver object
+            Sd = S.copy()
+            for b in range(Sd.shape[0]):
+                real = Sd[b] > 0
+                zs = sorted((ELEMENTS[(ELEMENTS.index(int(z)) + ru["shift"]) % len(ELEMENTS)] for z in Sd[b][real]), reverse=True)
+                Sd[b][real] = zs
+            dmol, md = _langevin(Sd, X, ru["T"], ru["dt"], ru["tau"], k=0.0)
+            try:
+                with silence():
+                    md.initialize(dmol, remove_com=None, steps=None)
+            except Exception:
+                pass
+            md.Temp, md.timestep, md.damp = T, dt, tau
         try:
             with silence():
                 md.initialize(mol, remove_com=None, steps=None)
